@@ -4,14 +4,15 @@ SPEC = dict(
     proof_module="SimbodyProofs.C08",
     sources=["SimbodyModel/Proto.lean", "SimbodyModel/C08.lean", "SimbodyProofs/C08.lean", "Drivers/C08.lean"],
     n=dict(quick=150, thorough=3000),
-    modes=["", "testcc"],
+    modes=["", "testcc", "degenerate"],
     rtol=1e-9, atol=1e-12,
     rule="case = random tree (2-6 bodies, 13 mobilizer types), 1-6 constraints drawn from the 19 built-in types + a "
          "homogeneous linear SpeedCoupler, 20% exact duplicates (redundant but consistent), each enabled with prob. 3/4 "
          "(Constraint::disable), gravity + random body/mobility forces, random violated state or (50%) the state projected "
          "onto the manifold; records: loopFD (udot, multipliers vs the Lean model on exported M, G, f, b), power, and the "
          "implementation-only predicates newton / udoterr / disabled / power; mode testcc = TestCustomConstraints::"
-         "testSpeedCoupler2 scenario; distinct = distinct input records",
+         "testSpeedCoupler2 scenario; mode degenerate = two fixed systems whose constraints act between bodies without relative "
+         "mobility (finding zeroG.newton); distinct = distinct input records",
     partial="the rank decision of the multiplier solve (LAPACK QTZ with conditioning tolerance m*eps^(3/4)) is not modelled: "
             "pinv is a parameter with the generalized-inverse contract; cases with an ambiguous singular-value gap of G "
             "(1e-12 < s_i/s_1 < 1e-6) are tagged illcond and only Newton's law is checked on them; M^-1 is the exported "
